@@ -97,36 +97,87 @@ def _store(e, st, ref, val):
     e.root_set(st, ref.root, e.set_path(st, e.root_get(st, ref.root), ref.path, val))
 
 
-def poll_value(e, st, ref):
-    """poll the future stored at `ref`: returns [(state, Poll value)] - one entry per outcome (states are forks of
-    `st`; `st` itself is reused for the first outcome)."""
+def _apply_transforms(e, st, pv, transforms):
+    """pv: Poll value produced by the innermost future; transforms innermost-first: ('map', f) | ('fuse', ref)"""
+    for tr in transforms:
+        d = e.discriminant_of(st, pv).v
+        if not isinstance(d, int):
+            raise Unsupported("symbolic poll result under Map/Fuse")
+        if d != 0:
+            continue
+        if tr[0] == 'map':
+            pv = VAgg(name='Poll', vname='Ready', disc=0,
+                      fields={('v', 'Ready', 0): apply_fn_item(e, st, tr[1], e.get_field(pv, ('v', 'Ready', 0)))})
+        elif tr[0] == 'fuse':
+            cur = _load(e, st, tr[1])
+            _store(e, st, tr[1], VAgg(name='Fuse', fields=cur.fields, extra={'terminated': True}))
+    return pv
+
+
+def poll_into(e, st, ref, cx, t, transforms=()):
+    """poll the future at `ref`, deliver the (transformed) Poll value to t.dest and continue at t.target.
+    Returns None (same state continues) or a list of successor states."""
     fut = _load(e, st, ref)
     if isinstance(fut, VAgg) and fut.name == 'Map':
-        inner_ref = VRef(ref.root, ref.path + (('f', 0),), True)
-        out = []
-        for s2, pv in poll_value(e, st, inner_ref):
-            if pv.vname == 'Ready':
-                f = fut.fields[('f', 1)]
-                pv = VAgg(name='Poll', vname='Ready', disc=0,
-                          fields={('v', 'Ready', 0): apply_fn_item(e, s2, f, pv.fields[('v', 'Ready', 0)])})
-            out.append((s2, pv))
-        return out
+        return poll_into(e, st, VRef(ref.root, ref.path + (('f', 0),), True), cx, t, (('map', fut.fields[('f', 1)]),) + tuple(transforms))
     if isinstance(fut, VAgg) and fut.name == 'Fuse':
         if fut.extra.get('terminated'):
-            return [(st, VAgg(name='Poll', vname='Pending', disc=1))]
-        inner_ref = VRef(ref.root, ref.path + (('f', 0),), True)
-        out = []
-        for s2, pv in poll_value(e, st, inner_ref):
-            if pv.vname == 'Ready':
-                cur = _load(e, s2, ref)
-                _store(e, s2, ref, VAgg(name='Fuse', fields=cur.fields, extra={'terminated': True}))
-            out.append((s2, pv))
-        return out
+            pv = _apply_transforms(e, st, VAgg(name='Poll', vname='Pending', disc=1), transforms)
+            f2 = st.frames[-1]
+            e.write_place(st, f2, t.dest, pv)
+            f2.bb = t.target
+            return None
+        return poll_into(e, st, VRef(ref.root, ref.path + (('f', 0),), True), cx, t, (('fuse', ref),) + tuple(transforms))
     if isinstance(fut, VAgg) and fut.name in ('Box', 'Pin') and ('f', 0) in fut.fields:
-        return poll_value(e, st, _target_of_pin(e, st, fut))
+        return poll_into(e, st, _target_of_pin(e, st, fut), cx, t, transforms)
+    if isinstance(fut, VRef):
+        return poll_into(e, st, fut, cx, t, transforms)
+    fn = None
+    if isinstance(fut, VAgg) and fut.extra and fut.extra.get('body') is not None:
+        fn = fut.extra['body']
+    if fn is None and isinstance(fut, VAgg) and fut.name == 'PollFn':
+        clo_ref = VRef(ref.root, ref.path + (('f', 0),), True)
+        clo = _load(e, st, clo_ref)
+        if isinstance(clo, VAgg) and (clo.name or '').startswith('{closure'):
+            body = e.resolve_closure(st, clo)
+            if not transforms:
+                e.push_call(st, body, [clo_ref, cx], ret_dest=t.dest, ret_bb=t.target, unwind_bb=t.unwind)
+                return None
+            st.meta['conts'] = st.meta.get('conts', []) + [('poll_result', (t.dest, t.target, tuple(transforms)))]
+            e.push_call(st, body, [clo_ref, cx], ret_dest=None, ret_bb=-1, unwind_bb=t.unwind, tag='cont')
+            return None
+    if fn is None and hasattr(e, 'resolve_future_impl'):
+        fn = e.resolve_future_impl(st, fut)
+    if fn is not None:
+        pin = VAgg(name='Pin', fields={('f', 0): VRef(ref.root, ref.path, True)})
+        if not transforms:
+            e.push_call(st, fn, [pin, cx], ret_dest=t.dest, ret_bb=t.target, unwind_bb=t.unwind)
+            return None
+        st.meta['conts'] = st.meta.get('conts', []) + [('poll_result', (t.dest, t.target, tuple(transforms)))]
+        e.push_call(st, fn, [pin, cx], ret_dest=None, ret_bb=-1, unwind_bb=t.unwind, tag='cont')
+        return None
     if not hasattr(e, 'leaf_poll'):
         raise Unsupported(f"no leaf_poll hook for {fut!r}")
-    return e.leaf_poll(st, ref, fut)
+    res = []
+    for s2, pv in e.leaf_poll(st, ref, fut):
+        if s2.meta.get('panic_now'):
+            res.append(s2)
+            continue
+        pv = _apply_transforms(e, s2, pv, transforms)
+        f2 = s2.frames[-1]
+        e.write_place(s2, f2, t.dest, pv)
+        f2.bb = t.target
+        res.append(s2)
+    return res
+
+
+def c_poll_result(e, st, data, rv):
+    dest, target, transforms = data
+    pv = _apply_transforms(e, st, rv, transforms)
+    f2 = st.frames[-1]
+    e.write_place(st, f2, dest, pv)
+    f2.bb = target
+    return None
 
 
 def apply_fn_item(e, st, f, x):
@@ -145,33 +196,17 @@ def apply_fn_item(e, st, f, x):
 
 
 def m_future_poll(e, st, fr, t, args):
-    """<X as Future>::poll(pin, cx): coroutines / poll_fn closures with a MIR body are inlined, adapters are
-    modelled, leaf futures go to the harness' leaf_poll hook (eager fork over outcomes)."""
+    """<X as Future>::poll(pin, cx): coroutines / poll_fn closures with a MIR body are inlined, adapters (Map, Fuse)
+    are modelled, leaf futures go to the harness' leaf_poll hook (eager fork over outcomes)."""
     ref = peel(e, st, args[0])
     fut = _load(e, st, ref)
-    fn = None
-    if isinstance(fut, VAgg) and fut.extra and fut.extra.get('body') is not None:
-        fn = fut.extra['body']
-    if fn is None:
+    if not (isinstance(fut, VAgg) and fut.extra and fut.extra.get('body') is not None):
         fn = e.resolve_poll_body(st, fr, t, fut)
-    if fn is not None:
-        e.push_call(st, fn, [VAgg(name='Pin', fields={('f', 0): VRef(ref.root, ref.path, True)}), args[1]],
-                    ret_dest=t.dest, ret_bb=t.target, unwind_bb=t.unwind)
-        return None
-    if isinstance(fut, VAgg) and fut.name == 'PollFn':
-        clo_ref = VRef(ref.root, ref.path + (('f', 0),), True)
-        clo = _load(e, st, clo_ref)
-        body = e.resolve_closure(st, clo)
-        e.push_call(st, body, [clo_ref, args[1]], ret_dest=t.dest, ret_bb=t.target, unwind_bb=t.unwind)
-        return None
-    outs = poll_value(e, st, ref)
-    res = []
-    for s2, pv in outs:
-        f2 = s2.frames[-1]
-        e.write_place(s2, f2, t.dest, pv)
-        f2.bb = t.target
-        res.append(s2)
-    return res
+        if fn is not None:
+            e.push_call(st, fn, [VAgg(name='Pin', fields={('f', 0): VRef(ref.root, ref.path, True)}), args[1]],
+                        ret_dest=t.dest, ret_bb=t.target, unwind_bb=t.unwind)
+            return None
+    return poll_into(e, st, ref, args[1], t)
 
 
 def m_is_terminated(e, st, fr, t, args):
@@ -333,7 +368,7 @@ def m_option_filter(e, st, fr, t, args):
             xo = s2.alloc(x)
             co = s2.alloc(clo)
             # continuation: a tiny synthetic frame is avoided by remembering the pending filter in meta
-            s2.meta.setdefault('filter_stack', []).append((f2.fid, t.dest, t.target, x))
+            s2.meta['filter_stack'] = s2.meta.get('filter_stack', []) + [(f2.fid, t.dest, t.target, x)]
             e.push_call(s2, body, [VRef(('obj', co), (), True), VRef(('obj', xo), (), False)], ret_dest=None, ret_bb=-1,
                         unwind_bb=t.unwind, tag='filter_pred')
         outs.append(s2)
@@ -341,6 +376,7 @@ def m_option_filter(e, st, fr, t, args):
 
 
 def install_common(eng: Engine):
+    eng.conts['poll_result'] = c_poll_result
     M = eng.models
     M.append((R(r'<Level as PartialOrd<LevelFilter>>::le'), m_false))
     M.append((R(r'IntoFuture>::into_future$'), m_ident))
